@@ -120,7 +120,6 @@ FailsUnder(inp, o, bs) ==
     \cup (IF wrong(DOMAIN inp.params, o.vars, vars) THEN {"CarParamsOverrideAll"} ELSE {})
     \cup (IF wrong(fromCar, o.vars, vars) THEN {"LaterCarOverridesEarlierAndBases"} ELSE {})
     \cup (IF wrong(fromBase, o.vars, vars) THEN {"BaseVariablesInOrder"} ELSE {})
-    \cup (IF DOMAIN o.vars = DOMAIN vars THEN {} ELSE {"NoOtherVariables"})
     \cup (IF o.final.captured /\ wrong(DOMAIN inp.node.vars, o.final.vars, fin) THEN {"NodeVariablesNotOverridable"} ELSE {})
     \cup (IF o.final.captured /\ wrong({"data_paths"}, o.final.vars, fin) THEN {"DataPathsUserOrDefault"} ELSE {})
     \cup (IF o.final.captured /\ wrong(DOMAIN vars \ (DOMAIN inp.node.vars \cup {"data_paths"}), o.final.vars, fin) THEN {"TemplatesSeeCarVariables"} ELSE {})
